@@ -142,7 +142,7 @@ class World:
 
     # ---- edits
     def sources(self):
-        return sorted((self.d / "src").glob("*.svg"))
+        return sorted((self.d / getattr(self, "srcdir", "src")).glob("*.svg"))
 
     def fresh_name(self):
         self.next_cp += 1
@@ -478,6 +478,28 @@ def directed_pngquant_declines(w):
     return [([setk("color_format", "cbdt"), setk("bitmap_resolution", 32), setk("use_pngquant", True)], None), ([modify_and_decline], None)]
 
 
+def directed_torn_graph(w):
+    """the driver is killed while it writes build.ninja (after the resolved config is on disk); the next invocation
+    must rebuild the graph"""
+    def add(w):
+        w.add()
+
+    return [([add], dict(module="nanoemoji.nanoemoji", target="", mode="kill_during_ninja_write", bytes=1)), ([], None)]
+
+
+def directed_switch_dir(w):
+    """the same file names come from another directory (new artwork): the graph must follow the new paths"""
+    def switch(w):
+        new = w.d / "src2"
+        new.mkdir()
+        for p in w.sources():
+            (new / p.name).write_text(svg_text(w.rng))
+        w.srcdir = "src2"
+        w.log.append(dict(op="switch_source_directory", to="src2", names=[p.name for p in w.sources()]))
+
+    return [([switch], None)]
+
+
 def directed_f7(w):
     def add(w):
         w.add()
@@ -509,7 +531,7 @@ def main(argv):
     n = 6 if tier == "quick" else 120
     seeds = [rng.getrandbits(40) for _ in range(n)]
     jobs = [(s, rng.randint(2, 4 if tier == "quick" else 6), None) for s in seeds]
-    jobs += [(rng.getrandbits(40), 0, directed_f17), (rng.getrandbits(40), 0, directed_f17_silent), (rng.getrandbits(40), 0, directed_f7), (rng.getrandbits(40), 0, directed_options), (rng.getrandbits(40), 0, directed_bitmap), (rng.getrandbits(40), 0, directed_pngquant_declines)]
+    jobs += [(rng.getrandbits(40), 0, directed_f17), (rng.getrandbits(40), 0, directed_f17_silent), (rng.getrandbits(40), 0, directed_f7), (rng.getrandbits(40), 0, directed_options), (rng.getrandbits(40), 0, directed_bitmap), (rng.getrandbits(40), 0, directed_pngquant_declines), (rng.getrandbits(40), 0, directed_torn_graph), (rng.getrandbits(40), 0, directed_switch_dir)]
     with ThreadPoolExecutor(8) as ex:
         results = list(ex.map(lambda j: run_history(*j), jobs))
     known = known_ids("C09")
